@@ -27,7 +27,12 @@ RULE = ("(1) kinds: the COMPLETE product {sun_zenith_angle, cos_zen, get_alt_az,
         "broadcasting (1e-6 of the unit, angles modulo a turn) for get_position, get_lonlatalt, both look functions, the sun "
         "functions, observer_position, gmst, jdays; element sets: real near-circular ones, generated near-earth ones and "
         "eccentric near-earth ones (e 0.02-0.35), instants with a propagated radius of 6300-100000 km; "
-        "distinct = (function, time kind, coordinate kind) cell, instant, or (function, shapes, element set, first instant)")
+        "(4) sequences of 5-15 array-taking queries (get_position normalised / km, get_lonlatalt, both look functions, sun functions, "
+        "observer_position, gmst) on ONE Orbital object that reuse ONE time-array object and ONE lon/lat/alt array object, with "
+        "in-place shifts of those arrays in between (one fixed swath sequence + seeded random ones, shapes (6,) and (2,3)): every "
+        "result vs the scalar calls on a second object (1e-6 of the unit); "
+        "distinct = (function, time kind, coordinate kind) cell, instant, (function, shapes, element set, first instant) or "
+        "(element set, first instant, operation sequence)")
 ASSUMPTIONS = ["orbit cases are (element set, instant) pairs at which the propagated radius is 6300..100000 km; decayed element sets "
                "(radius 1e6 km and more a few days from epoch) are outside the sampled domain",
                "dask laziness and xarray wrappers are library behaviour (dask enumerated by kind and probed for laziness with a "
@@ -733,6 +738,87 @@ def check_broadcast(o, name, variant, times_us, lons, lats, alts):
     return cnt, bad
 
 
+# ------------------------------------------------------------------ oracle (4): sequences reusing one array object
+SEQ_OPS = ["pos_n", "pos_km", "lla", "look", "modlook", "sza", "alt_az", "obs", "gmst"]
+FIXED_SEQ = ["pos_n", "lla", "pos_km", "shift:60", "lla", "pos_km", "pos_n", "look", "cshift:0.5", "look", "obs", "shift:-17", "sza", "pos_n", "pos_n"]
+
+
+def random_sequence(ctx):
+    ops = []
+    for _ in range(ctx.rng.randrange(5, 11)):
+        r = ctx.rng.random()
+        if r < 0.2:
+            ops.append("shift:%d" % ctx.rng.choice([1, -1, 37, 60, -90, 600]))
+        elif r < 0.27:
+            ops.append("cshift:%s" % ctx.rng.choice(["0.25", "-0.5", "1.0"]))
+        elif r < 0.75:
+            ops.append(ctx.rng.choice(["pos_n", "pos_km", "lla"]))
+        else:
+            ops.append(ctx.rng.choice(SEQ_OPS))
+    return ops
+
+
+def run_sequence(line1, line2, tshape, times_us, lons, lats, alts, ops):
+    """Consecutive array-taking queries on ONE Orbital object, all given the SAME ndarray of times (and the same
+    longitude / latitude / altitude arrays), with in-place shifts of those arrays in between.  Every result is compared
+    with the scalar calls for the instants the array holds at that moment, made on a second object that only ever sees
+    scalars (1e-6 of the unit, angles modulo a turn).  Returns (comparisons, [(step, op, component, element, got, want)])."""
+    from pyorbital import astronomy, orbital
+    sat = orbital.Orbital("x", line1=line1, line2=line2)
+    ref = orbital.Orbital("x", line1=line1, line2=line2)
+    T = np.array([np.datetime64(int(u), "us") for u in times_us]).reshape(tshape)
+    n = int(np.prod(tshape))
+    lo, la, al = (np.array(v[:n], dtype=float).reshape(tshape) for v in (lons, lats, alts))
+    calls = {
+        "pos_n": (lambda: [c for blk in sat.get_position(T) for c in np.asarray(blk)],
+                  lambda t, a, b, c: flat(tuple(tuple(v) for v in ref.get_position(t))), None),
+        "pos_km": (lambda: [c for blk in sat.get_position(T, normalize=False) for c in np.asarray(blk)],
+                   lambda t, a, b, c: flat(tuple(tuple(v) for v in ref.get_position(t, normalize=False))), None),
+        "lla": (lambda: flat(sat.get_lonlatalt(T)), lambda t, a, b, c: flat(ref.get_lonlatalt(t)), [360.0, None, None]),
+        "look": (lambda: flat(sat.get_observer_look(T, lo, la, al)), lambda t, a, b, c: flat(ref.get_observer_look(t, a, b, c)), [360.0, None]),
+        "modlook": (lambda: flat(orbital.get_observer_look(lo + 1.0, la / 2.0, al * 0 + 800.0, T, lo, la, al)),
+                    lambda t, a, b, c: flat(orbital.get_observer_look(a + 1.0, b / 2.0, 800.0, t, a, b, c)), [360.0, None]),
+        "sza": (lambda: [astronomy.sun_zenith_angle(T, lo, la)], lambda t, a, b, c: [astronomy.sun_zenith_angle(t, a, b)], None),
+        "alt_az": (lambda: flat(astronomy.get_alt_az(T, lo, la)), lambda t, a, b, c: flat(astronomy.get_alt_az(t, a, b)), [None, 2 * math.pi]),
+        "obs": (lambda: flat(astronomy.observer_position(T, lo, la, al)), lambda t, a, b, c: flat(astronomy.observer_position(t, a, b, c)), None),
+        "gmst": (lambda: [astronomy.gmst(T)], lambda t, a, b, c: [astronomy.gmst(t)], [2 * math.pi]),
+    }
+    bad = []
+    cnt = 0
+    with warnings.catch_warnings():
+        warnings.simplefilter("ignore")
+        for step, op in enumerate(ops):
+            if op.startswith("shift:"):
+                T += np.timedelta64(int(op[6:]), "s")       # in place: the same array object, new instants
+                continue
+            if op.startswith("cshift:"):
+                lo += float(op[7:])                         # in place
+                la *= 0.999
+                continue
+            fa, fs, wrap = calls[op]
+            try:
+                arr = fa()
+            except Exception as e:  # noqa
+                bad.append((step, op, 0, [], type(e).__name__ + ": " + str(e)[:120], "a result"))
+                return cnt, bad
+            snap = [np.array(np.broadcast_to(np.asarray(a, dtype=float), tshape)) for a in arr]
+            for idx in np.ndindex(tshape):
+                tt = T[idx].astype("datetime64[us]").item()
+                one = fs(tt, float(lo[idx]), float(la[idx]), float(al[idx]))
+                if len(one) != len(snap):
+                    bad.append((step, op, 0, list(idx), len(snap), len(one)))
+                    return cnt, bad
+                for i, (a, sc) in enumerate(zip(snap, one)):
+                    cnt += 1
+                    d = abs(float(a[idx]) - float(sc))
+                    if wrap and wrap[i]:
+                        d = min(d, abs(d - wrap[i]))
+                    if not d <= 1e-6:
+                        bad.append((step, op, i, list(idx), float(a[idx]), float(sc)))
+                        return cnt, bad
+    return cnt, bad
+
+
 def oracle(ctx):
     t0 = base_instant(ctx)
     # (1) the statement's clauses on the complete product
@@ -791,6 +877,32 @@ def oracle(ctx):
                                      "lons": lons, "lats": lats, "alts": alts, "component": i, "element": idx}, got, ref, site=name)
 
 
+    # (4) sequences of array-taking queries on one Orbital object reusing one time array (and one lon/lat/alt array) object
+    for k in range(ctx.size(24, 600)):
+        a_, b_, o = objs[k % len(objs)]
+        tshape = [(6,), (2, 3)][k % 2]
+        ts = sane_times(ctx, o, 6, 3.0)
+        if len(ts) < 6:
+            continue
+        if k % 3 == 0:
+            # a swath: one start instant, regular spacing
+            ts = [ts[0] + dt.timedelta(seconds=37 * i) for i in range(6)]
+        times_us = [int((t - EPOCH70) / dt.timedelta(microseconds=1)) for t in ts]
+        lons = [ctx.rng.uniform(-179, 179) for _ in ts]
+        lats = [ctx.rng.uniform(-89, 89) for _ in ts]
+        alts = [ctx.rng.uniform(0, 2) for _ in ts]
+        ops = FIXED_SEQ if k < 2 else random_sequence(ctx)
+        n, bad = run_sequence(a_, b_, tshape, times_us, lons, lats, alts, ops)
+        ctx.count("eval_oracle_sequence", n)
+        ctx.bump("sequence_length", len(ops))
+        ctx.distinct(("seq", a_[2:7], times_us[0], " ".join(ops)))
+        for step, op, i, idx, got, ref in bad:
+            ctx.violation("array_vs_scalar_in_sequence",
+                          {"check": "sequence", "line1": a_, "line2": b_, "tshape": list(tshape), "times_us": times_us, "lons": lons,
+                           "lats": lats, "alts": alts, "ops": list(ops), "step": step, "op": op, "component": i, "element": idx},
+                          got, ref, site="Orbital (sequence of queries): " + op)
+
+
 def match_known(entry, v):
     return False
 
@@ -833,6 +945,12 @@ def replay(ctx, case):
         for b in bad:
             print("not bit-identical:", b)
         print(inp["fn"], inp["utc"], "->", "%d of %d representations differ" % (len(bad), n))
+        return 1 if bad else 0
+    if chk == "sequence":
+        n, bad = run_sequence(inp["line1"], inp["line2"], tuple(inp["tshape"]), inp["times_us"], inp["lons"], inp["lats"], inp["alts"], inp["ops"])
+        for b in bad:
+            print("violation: step %d (%s) component %d element %s: array %r, scalar call %r" % b)
+        print("sequence", " ".join(inp["ops"]), "->", "%d violation(s) in %d comparisons" % (len(bad), n))
         return 1 if bad else 0
     if chk == "broadcast":
         try:
